@@ -46,8 +46,8 @@ def slices(tier):
     if not q:
         out += [
             # the Piola pattern: (detJ**2)**(1/2) * (1/detJ), detJ**2 * (1/detJ)**2, with a field factor
-            Slice("detj-f", [DJ, F], {"pow", "div", "mul"}, 5, lits=[LIT["two"], LIT["half"], LIT["one"]], geometry=GEO2, levels=[{"pow"}, {"pow", "div"}, {"pow", "mul"}, {"mul"}, FIN], **kw),
-            Slice("jk-v", [J2, K2, U], {"index", "mul"}, 6, idx=(10, 11), geometry=GEO2, levels=[IX, IX, {"mul"}, IX, {"mul"}, FIN], mikinds=("name",), **kw),
+            Slice("detj-f", [DJ, F], {"pow", "div", "mul"}, 5, lits=[LIT["two"], LIT["half"], LIT["one"]], geometry=GEO2, levels=[{"pow"}, {"pow", "div"}, {"pow", "mul"}, {"mul"}, FIN], simulate=1500, depth=7, **kw),
+            Slice("jk-v", [J2, K2, U], {"index", "mul"}, 6, idx=(10, 11), geometry=GEO2, levels=[IX, IX, {"mul"}, IX, {"mul"}, FIN], mikinds=("name",), simulate=1500, depth=7, **kw),
             Slice("jk-v-wide", [J2, K2, U, A], {"index", "mul", "add"}, 6, idx=(10, 11, 12), geometry=GEO2, levels=[IX, IX, {"mul"}, IX, {"mul", "add"}, FIN], mikinds=("name", "fixed"), simulate=1500, depth=7, **kw),
             Slice("detj-wide", [DJ, F], {"pow", "div", "mul", "sqrt", "abs"}, 5, lits=[LIT["two"], LIT["mone"], LIT["half"]], geometry=GEO2, levels=[{"pow", "div", "abs"}, {"pow", "div", "mul", "sqrt"}, {"mul", "div", "pow"}, {"mul", "div"}, FIN], simulate=1500, depth=7, **kw),
             Slice("immersed-v", [J32, K23, U3, U], {"index", "mul"}, 6, idx=(10, 11, 12), maxdim=3, gdim=2, geometry=GEO32, levels=[IX, IX, {"mul"}, IX, {"mul"}, FIN], mikinds=("name",), simulate=1500, depth=7, **kw),
